@@ -1898,4 +1898,247 @@ theorem ReachableR.uids {g : Graph} (hwf : graphWF g = true) (hN : NamesInj g) (
   | init => exact Uids.init g ncls store
   | step w out fuel hr hw hf ih => exact ih.step hwf hN hP (hr.basic hwf) w out fuel hw hf
 
+/-! ## the retry budget of stateless classes -/
+
+theorem shouldRerun_true_stateless (g : Graph) (s : State) (n w : Nat) (hsets : (g.node n).sets.isEmpty = true)
+    (h : shouldRerun g s n w = .ok true) :
+    ((sharedResults g s n).length : Int) < (g.node n).maxTries.getD 1 ∧ (g.node n).flat = false := by
+  unfold shouldRerun at h
+  dsimp only at h
+  by_cases c1 : (s.nd n).rerunDisabled = true
+  · simp [c1] at h
+  by_cases c2 : (g.node n).dryRun = true
+  · simp [c1, c2] at h
+  by_cases c3 : (g.node n).flat = true
+  · simp [c1, c2, c3] at h
+  by_cases c4 : (g.node n).cloneSource = true
+  · simp [c1, c2, c3, c4] at h
+  by_cases c5 : g.idIn w n = false
+  · simp [c1, c2, c3, c4, c5] at h
+  by_cases c6 : (g.node n).maxTries.getD 1 < 0
+  · simp [c1, c2, c3, c4, c5, c6] at h
+  simp only [c1, c2, c3, c4, c5, c6, hsets, Bool.false_eq_true, if_false, if_true, Bool.not_true] at h
+  repeat' (split at h)
+  all_goals first
+    | (simp at h; done)
+    | (simp only [Except.ok.injEq, decide_eq_true_eq, List.length_map] at h
+       exact ⟨by omega, by simpa using c3⟩)
+
+/-- a stateless test is run only while its class has fewer results (of whatever status, placeholders of
+executions in flight included) than `max(max_tries, 1)`; the decision leaves the state alone -/
+theorem runDecision_true_stateless (g : Graph) (s0 : State) (n w : Nat) (s1 : State) (evs : List Event)
+    (hsets : (g.node n).sets.isEmpty = true) (h : runDecision g s0 n w = .ok (true, s1, evs)) :
+    s1 = s0 ∧ (g.node n).flat = false ∧ ((sharedResults g s0 n).length : Int) < max ((g.node n).maxTries.getD 1) 1 := by
+  unfold runDecision at h
+  dsimp only at h
+  by_cases c1 : (g.node n).sharedRoot = true
+  · simp [c1] at h
+  by_cases c2 : (g.node n).dryRun = true
+  · simp [c1, c2] at h
+  by_cases c3 : (g.node n).flat = true
+  · simp [c1, c2, c3] at h
+  by_cases c4 : (g.node n).cloneSource = true
+  · simp [c1, c2, c3, c4] at h
+  by_cases c5 : g.idIn w n = false
+  · simp [c1, c2, c3, c4, c5] at h
+  simp only [c1, c2, c3, c4, c5, hsets, Bool.false_eq_true, if_false, if_true, Bool.not_true] at h
+  unfold runDecisionStateless at h
+  by_cases he : (sharedResults g s0 n).isEmpty = true
+  · simp only [he, if_true, Except.ok.injEq, Prod.mk.injEq, true_and] at h
+    rw [List.isEmpty_iff] at he
+    refine ⟨h.1.symm, by simpa using c3, ?_⟩
+    rw [he]; simp only [List.length_nil, Int.natCast_zero]; omega
+  · simp only [he, Bool.false_eq_true, if_false] at h
+    cases hr : shouldRerun g s0 n w with
+    | error e => simp [hr, Except.map] at h
+    | ok r =>
+      simp only [hr, Except.map, Except.ok.injEq, Prod.mk.injEq] at h
+      rw [h.1] at hr
+      have := shouldRerun_true_stateless g s0 n w hsets hr
+      exact ⟨h.2.1.symm, this.2, by omega⟩
+
+/-- class `c` consists of stateless tests proper (no object root) with the same `max_tries` setting `M` -/
+def statelessClass (g : Graph) (c : Nat) (M : Option Int) : Bool :=
+  goodClass g c && (g.classNodes c).all (fun j => (g.node j).sets.isEmpty && decide ((g.node j).maxTries = M))
+
+theorem statelessClass_spec {g : Graph} {c : Nat} {M : Option Int} (h : statelessClass g c M = true) :
+    goodClass g c = true ∧ ∀ j, j < g.nodes.length → (g.node j).cls = c → (g.node j).sets.isEmpty = true ∧ (g.node j).maxTries = M := by
+  unfold statelessClass at h
+  simp only [Bool.and_eq_true, List.all_eq_true, decide_eq_true_eq] at h
+  exact ⟨h.1, fun j hj hc => h.2 j ((mem_classNodes g c j).mpr ⟨hj, hc⟩)⟩
+
+/-- the budget invariant: a stateless class never has more results than `max(max_tries, 1)` -/
+def Budget (g : Graph) (s : State) : Prop :=
+  ∀ c M, statelessClass g c M = true → (classLen g s c : Int) ≤ max (M.getD 1) 1
+
+theorem Budget.anti {g : Graph} {s s' : State} (j : Budget g s)
+    (h : ∀ m, (g.node m).objectRoot = false → (s'.nd m).results.length ≤ (s.nd m).results.length) : Budget g s' := by
+  intro c M hc
+  have := j c M hc
+  have := classLen_anti (s := s) (s' := s') (statelessClass_spec hc).1 h
+  omega
+
+theorem Budget.silent {g : Graph} {w : Nat} {s s' : State} (j : Budget g s) (a : Silent g w s s') : Budget g s' :=
+  j.anti (fun m _ => by rw [a.results]; exact Nat.le_refl _)
+
+theorem Budget.sameBook {g : Graph} {s s' : State} (j : Budget g s) (h : SameBook s s') : Budget g s' :=
+  j.anti (fun m _ => by rw [h.nd]; exact Nat.le_refl _)
+
+theorem startTest_nonpre_len (g : Graph) (s : State) (n w : Nat) (ph : Phase) (dir : Dir) (hph : ph ≠ .pre)
+    (hn : n < s.nodes.length) :
+    ((startTest g s n w ph dir).1.nd n).results.length = (s.nd n).results.length + 1 ∧
+    ∀ j, j ≠ n → ((startTest g s n w ph dir).1.nd j).results.length = (s.nd j).results.length := by
+  constructor
+  · rw [startTest_nonpre_fst g s n w ph dir hph]
+    show ((({ s with nextTag := s.nextTag + 1 } : State).setNd n _).nd n).results.length = _
+    rw [nd_setNd_eq _ n _ (by exact hn)]
+    simp only [List.length_append, List.length_singleton]
+    rfl
+  · intro j hj
+    rcases startTest_results g s n w ph dir j with h | ⟨_, h, _⟩
+    · rw [h]
+    · exact absurd h hj
+
+/-- a guarded start of a test proper keeps the budget -/
+theorem Budget.startPlain {g : Graph} {s0 s1 : State} {w : Nat} (j : Budget g s1) (b : Basic g s1 (Ex w))
+    (n : Nat) (dir : Dir) (evs : List Event) (hn : n < g.nodes.length)
+    (hdec : runDecision g s0 n w = .ok (true, s1, evs)) : Budget g (startTest g s1 n w .plain dir).1 := by
+  intro c M hc
+  have hns : n < s1.nodes.length := by rw [b.nodesLen]; exact hn
+  obtain ⟨h1, h2⟩ := startTest_nonpre_len g s1 n w .plain dir (by decide) hns
+  by_cases hcn : (g.node n).cls = c
+  · rw [classLen_succ hn hcn h1 h2]
+    obtain ⟨hsets, hM⟩ := (statelessClass_spec hc).2 n hn hcn
+    obtain ⟨hs, hflat, hlt⟩ := runDecision_true_stateless g s0 n w s1 evs hsets hdec
+    rw [← hs, sharedResults_length g s1 n hn hflat, hcn, hM] at hlt
+    push_cast
+    omega
+  · rw [classLen_other hcn h2]
+    exact j c M hc
+
+/-- starts of creation steps touch object roots only -/
+theorem Budget.startOther {g : Graph} {s : State} (j : Budget g s) (n w : Nat) (ph : Phase) (dir : Dir)
+    (h : ph = .pre ∨ (g.node n).objectRoot = true) : Budget g (startTest g s n w ph dir).1 := by
+  refine j.anti (fun m hm => ?_)
+  rcases startTest_results g s n w ph dir m with h' | ⟨hph, hmn, _, _⟩
+  · rw [h']; exact Nat.le_refl _
+  · subst hmn
+    rcases h with h | h
+    · exact absurd h hph
+    · rw [h] at hm; cases hm
+
+theorem Budget.settle {g : Graph} {s : State} {w : Nat} (j : Budget g s) (b : Basic g s All)
+    {n : Nat} {ph : Phase} {dir : Dir} {uid : String} {tag wait : Nat}
+    (hpc : (s.wd w).pc = .test n ph dir uid tag wait) (hph : ph ≠ .pre) (res : Result) (hres : res.tag = 0) :
+    Budget g (settleNd s n res tag) := by
+  have hok := b.pcOK w n ph dir uid tag wait trivial hpc
+  refine j.anti (fun m _ => ?_)
+  rcases settleNd_results s n res tag m with h | ⟨hmn, h⟩
+  · rw [h]; exact Nat.le_refl _
+  · rw [h]
+    subst hmn
+    have h1 := settle_len (s.nd m).results res tag (isPh_res_false res tag hres hok.2.1)
+    have hmem := (b.placeholder w m ph dir uid tag wait trivial hpc).1 hph
+    have h2 : 0 < ((s.nd m).results.filter (isPh tag)).length :=
+      List.length_pos_of_mem (List.mem_filter.mpr ⟨hmem, by rw [isPh_phOf]; simp⟩)
+    omega
+
+theorem Budget.appendPre {g : Graph} {s : State} (j : Budget g s) (n w : Nat) (hroot : (g.node n).objectRoot = true) :
+    Budget g (appendPre s n w) := by
+  refine j.anti (fun m hm => ?_)
+  have : m ≠ n := by intro e; subst e; rw [hroot] at hm; cases hm
+  unfold I2N.Trav.appendPre
+  rw [nd_setNd_ne s n m _ this]
+  exact Nat.le_refl _
+
+theorem Budget.startFrom {g : Graph} {s1 s' : State} {w : Nat} (j : Budget g s1) (b : Basic g s1 (Ex w))
+    (h : StartFrom g w s1 s') : Budget g s' := by
+  cases h with
+  | plain n dir s0 evs hn hroot hdec h => rw [h]; exact j.startPlain b n dir evs hn hdec
+  | pre n dir hn hroot h =>
+    rw [h]
+    have j0 : Budget g (s1.setWd w (fun d => { d with preResults := (s1.nd n).results, preName := preNameOf g n w })) :=
+      j.anti (fun m _ => Nat.le_refl _)
+    exact j0.startOther n w .pre dir (Or.inl rfl)
+
+theorem Budget.cont {g : Graph} {sc s' : State} {w n : Nat} {ph : Phase} {dir : Dir} {ok : Bool} (j : Budget g sc)
+    (b : Basic g sc (Ex w)) (h : ContEff g w n ph dir sc ok s')
+    (hroot : (g.node n).objectRoot = false ↔ ph = .plain) : Budget g s' := by
+  have hr : ph = .pre → (g.node n).objectRoot = true := by
+    intro hp
+    rw [hp] at hroot
+    cases hc : (g.node n).objectRoot
+    · exact absurd (hroot.mp hc) (by decide)
+    · rfl
+  rcases h with ⟨hp, _, h⟩ | ⟨_, h⟩
+  · rw [h]
+    exact j.startOther n w .main dir (Or.inr (hr hp))
+  · have jd : Budget g (if ph = .pre then I2N.Trav.appendPre sc n w else sc) := by
+      split
+      · rename_i hp; exact j.appendPre n w (hr hp)
+      · exact j
+    have bd : Basic g (if ph = .pre then I2N.Trav.appendPre sc n w else sc) (Ex w) := by
+      split
+      · rename_i hp; exact b.extendRoot n _ (hr hp)
+      · exact b
+    rcases h with ⟨a, _⟩ | ⟨s1, a, hs⟩
+    · exact jd.silent a
+    · exact (jd.silent a).startFrom (bd.silent a) hs
+
+/-- the budget invariant is preserved by every step with fuel -/
+theorem Budget.step {g : Graph} (hwf : graphWF g = true) {s : State} (b : Basic g s All) (j : Budget g s)
+    (w : Nat) (out : Outcome) (fuel : Nat) (hw : w < g.workers.length) (hf : 0 < fuel) :
+    Budget g (resume g s w out fuel).1 := by
+  have hws : w < s.workers.length := by rw [b.workersLen]; exact hw
+  rcases resume_eff g hwf s w out fuel hf hws (b.paths w) with ⟨_, h⟩ | ⟨n, ph, dir, uid, tag, wait, hpc, sa, hrep, h⟩
+  · rcases h with ⟨a, _⟩ | ⟨s1, a, hs⟩
+    · exact j.silent a
+    · exact (j.silent a).startFrom ((b.silent a).mono (fun _ _ => trivial)) hs
+  · have hsb : SameBook s sa := by
+      rcases hrep with h | ⟨_, _, _, h, _⟩
+      · rw [h]; exact ⟨rfl, rfl, rfl⟩
+      · exact h
+    have ba : Basic g sa All := b.sameBook hsb
+    have ja : Budget g sa := j.sameBook hsb
+    have hpca : (sa.wd w).pc = .test n ph dir uid tag wait := by rw [hsb.wd]; exact hpc
+    have hok := b.pcOK w n ph dir uid tag wait trivial hpc
+    rcases h with ⟨e, _, sb, res, ok, hsab, _, hres, hc⟩ | ⟨_, h | hc⟩
+    · have bb : Basic g sb All := ba.sameBook hsab
+      have jb : Budget g sb := ja.sameBook hsab
+      have hpcb : (sb.wd w).pc = .test n ph dir uid tag wait := by rw [hsab.wd]; exact hpca
+      refine Budget.cont (sc := if ph = .pre then I2N.Trav.settlePre sb w res tag else settleNd sb n res tag) ?_ ?_ hc hok.2.2.2.1
+      · split
+        · exact jb.anti (fun m _ => Nat.le_refl _)
+        · rename_i hph; exact jb.settle bb hpcb hph res hres
+      · split
+        · exact bb.settlePre res tag
+        · exact bb.settle hpcb res hres
+    · rw [h]
+      exact ja.anti (fun m _ => Nat.le_refl _)
+    · exact ja.cont (ba.mono (fun _ _ => trivial)) hc hok.2.2.2.1
+
+theorem Budget.init (g : Graph) (ncls : Nat) (store : List (String × List (String × String))) :
+    Budget g (initState g ncls store) := by
+  intro c M _
+  have : classLen g (initState g ncls store) c = 0 := by
+    unfold classLen
+    have : ∀ m, ((initState g ncls store).nd m).results.length = 0 := by
+      intro m
+      unfold initState State.nd
+      simp only [List.getD_eq_getElem?_getD, List.getElem?_map]
+      cases g.nodes[m]? <;> rfl
+    rw [sum_map_congr _ _ (fun _ => 0) (fun j _ => this j)]
+    generalize g.classNodes c = l
+    induction l with
+    | nil => rfl
+    | cons a r ih => simp only [List.map_cons, List.sum_cons, ih]
+  rw [this]
+  omega
+
+theorem ReachableR.budget {g : Graph} (hwf : graphWF g = true) {ncls : Nat}
+    {store : List (String × List (String × String))} {s : State} (h : ReachableR g ncls store s) : Budget g s := by
+  induction h with
+  | init => exact Budget.init g ncls store
+  | step w out fuel hr hw hf ih => exact ih.step hwf (hr.basic hwf) w out fuel hw hf
+
 end I2N.Trav
